@@ -138,3 +138,28 @@ func TestRegForgedRotationsRejected(t *testing.T) {
 		wr(1), o("read_key_change", 0, 0, 0), wr(0),
 	}}, "forged-rotation-wrong-recipients-v0-rejected", "forged-rotation-wrong-recipients-v1-rejected", "forged-rotation-wrong-recipients-v2-rejected")
 }
+
+// TestRegBatchRemoveWithNewOpenInvite: one record removes a member (rotating the key) and
+// creates an open invite. An outsider who joins through that invite must derive the current
+// key and every earlier one; content written afterwards decrypts for it and its own content
+// decrypts for the others. Control: the same with the invite created before the batch.
+func TestRegBatchRemoveWithNewOpenInvite(t *testing.T) {
+	mustClasses(t, Case{Seed: 31, N: 4, Sign: true, Steps: []Step{
+		o("add", 0, 1, aclgen.Writer), wr(1),
+		{Op: &aclgen.Op{Kind: "batch", Actor: 0, Sub: []aclgen.Op{{Kind: "remove", Target: 1}, {Kind: "new_invite", Perm: aclgen.Writer}}}},
+		wr(0),
+		oref("invite_join", 2, -1, 0),
+		wr(1), wr(0),
+	}}, "rotation-and-new-open-invite-in-one-record", "join-through-invite-created-by-removal-batch")
+}
+
+func TestRegBatchRemoveWithEarlierOpenInvite(t *testing.T) {
+	mustClasses(t, Case{Seed: 32, N: 4, Sign: true, Steps: []Step{
+		o("add", 0, 1, aclgen.Writer), wr(1),
+		oref("invite_anyone", 0, 0, aclgen.Writer),
+		{Op: &aclgen.Op{Kind: "batch", Actor: 0, Sub: []aclgen.Op{{Kind: "remove", Target: 1}, {Kind: "add", Target: 3, Perm: aclgen.Reader}}}},
+		wr(0),
+		oref("invite_join", 2, -1, 0),
+		wr(1), wr(0),
+	}}, "open-invite-join-after-rotation", "rotation-with-live-open-invite")
+}
